@@ -172,6 +172,11 @@ def success_records_line(prog, ctx, rule):
 
 def run(prog, ctx):
     p10_p12_imports(prog, ctx)
+    # P13: the trailing comment of a continuation line is cut off the value for EVERY character of the comment set
+    from sa.report import Ctx as _CtxH
+    subh = _CtxH(ctx.prop, ctx.tier, prog)
+    parser.header_and_set_rules(prog, subh, "P13x", "P13")
+    ctx.obs.extend(ob for ob in subh.obs if ob.rule == "P13")
     p8_comment_lines(prog, ctx)
     ma = ModAnalysis(prog, indirect_targets=indirect_table(prog))
     # ---- P1 --------------------------------------------------------------------------------------------------
